@@ -662,6 +662,11 @@ def oracle_headers(ctx, mods, r):
         "random-bytes": bytes(r.randrange(256) for _ in range(3000)),
         "magic-then-random": b"NIST_1A\n" + bytes(r.randrange(256) for _ in range(3000)),
         "no-end-head": good.replace(b"end_head", b"        "),
+        # magic and size line in order, then bytes that are not text at all (sample data / fill where the fields should be)
+        "size-then-high-bytes": b"NIST_1A\n   1024\n" + bytes(0x80 + (k * 7) % 0x80 for k in range(2000)),
+        "size-then-0xff-fill": b"NIST_1A\n   1024\n" + b"\xff" * 2000,
+        "fields-then-binary": b"NIST_1A\n   1024\nchannel_count -i 1\nsample_count -i 4\n" + bytes(r.randrange(128, 256) for _ in range(2000)),
+        "binary-line-then-fields": good.replace(b"channel_count -i 1\n", b"\xfe\xff\x80\x81 -i 1\nchannel_count -i 1\n"),
     }
     fails = []
     for name, b in bads.items():
